@@ -127,6 +127,14 @@ PROBLEMS = []
 
 
 # ------------------------------------------------------------------ operations used inside lemmas
+def _global_state_ok():
+    """process-wide switches the code under test may flip and forget (attrs' validator switch): checked after the
+    oracles ran the converter; a flipped switch is reset and reported"""
+    if attrs.validators.get_disabled():
+        attrs.validators.set_disabled(False)
+        raise AssertionError("attrs validators were left disabled process-wide (attrs.validators.set_disabled / disabled())")
+
+
 def _not_a_verdict(e):
     """a RecursionError / MemoryError (also nested in cattrs' exception groups) says the harness or its stubs went
     wrong, not that the converter rejected the value: let it surface as an error of the lemma"""
@@ -155,7 +163,9 @@ def conv_accepts(cid, value):
         obj = c.hook(j, c.cls)
     except Exception as e:
         _not_a_verdict(e)
+        _global_state_ok()
         return (False, None)
+    _global_state_ok()
     return (True, getattr(obj, c.attr))
 
 
@@ -512,7 +522,9 @@ def removal_accepts(rid, k):
         rc.hook(removal_json(rc, rc.wires[k]), rc.root_cls)
     except Exception as e:
         _not_a_verdict(e)
+        _global_state_ok()
         return False
+    _global_state_ok()
     return True
 
 
@@ -544,7 +556,9 @@ def ctx_accepts(xid, value):
         cc.hook(_ctx_json(cc, value), cc.root_cls)
     except Exception as e:
         _not_a_verdict(e)
+        _global_state_ok()
         return False
+    _global_state_ok()
     return True
 
 
@@ -607,6 +621,53 @@ def _enum_shape(a):
     if isinstance(a, type) and issubclass(a, enum.Enum):
         return a, "scalar"
     return None
+
+
+_OPT_ARRAYS = None
+
+
+def opt_array_cases():
+    """optional, not null-admitting array properties: (class, attribute, wire name, a valid instance)"""
+    global _OPT_ARRAYS
+    if _OPT_ARRAYS is not None:
+        return _OPT_ARRAYS
+    L = _lsp()
+    conv = real_converter()
+    out = []
+    for name, sc in classlemmas.spec_classes().items():
+        cls = getattr(L, name, None)
+        if not (isinstance(cls, type) and attrs.has(cls)):
+            continue
+        fields = {f.name for f in attrs.fields(cls)}
+        for p in sc["props"]:
+            t = SPEC.expand(p["type"])
+            attr = specmodel.snake(p["name"])
+            if p.get("optional") and t["kind"] == "array" and attr in fields:
+                try:
+                    base = conv.structure(dict(classlemmas.SPEC_sample_for(_Case(name), maximal=False)), cls)
+                    out.append((name, cls, attr, p["name"], base, conv.get_unstructure_hook(cls), conv.get_structure_hook(cls), classlemmas.SPEC_sample_for(_Case(name), maximal=False)))
+                except Exception as e:
+                    PROBLEMS.append(("opt-array-case", "%s.%s" % (name, p["name"]), "%s: %s" % (type(e).__name__, str(e)[:100])))
+    _OPT_ARRAYS = out
+    return out
+
+
+def empty_array_is_written(k, via):
+    """an optional array that is SET to the empty array is written as [] (set is not the same as unset), whether the
+    object came from the constructor (via 0), from attribute assignment (1) or from parsing (2)"""
+    from .xhrt import concretize
+
+    name, cls, attr, wire, base, unhook, hook, template = opt_array_cases()[concretize(k, len(opt_array_cases()))]
+    via = concretize(via, 3)
+    if via == 0:
+        obj = attrs.evolve(base, **{attr: []})
+    elif via == 1:
+        obj = attrs.evolve(base)
+        setattr(obj, attr, [])
+    else:
+        obj = hook(dict(template, **{wire: []}), cls)
+    out = unhook(obj)
+    return wire in out and out[wire] == [] and getattr(obj, attr) == []
 
 
 _MIXED = None
@@ -726,9 +787,13 @@ def run_code(code):
     env = {}
     exec(code, env)
     try:
-        return env["replay"]()
+        res = env["replay"]()
     except BaseException as e:  # noqa
-        return (False, "replay raised %s: %s" % (type(e).__name__, e))
+        res = (False, "replay raised %s: %s" % (type(e).__name__, e))
+    if attrs.validators.get_disabled():
+        attrs.validators.set_disabled(False)
+        return (False, "the call leaves attrs validators disabled process-wide (every later structure / constructor call in the process skips the range, literal and type validators); " + str(res[1]))
+    return res
 
 
 def is_member(cid, r):
